@@ -156,6 +156,7 @@ func (p Profile) MarshalJSON() ([]byte, error) {
 	JSONWrite(&b, '{')
 
 	OnObject(p, func(o *Object) error {
+		notEmpty = JSONWriteObjectValue(&b, *o)
 		return nil
 	})
 
